@@ -47,6 +47,8 @@ def classify(e):
     if isinstance(e, ValueError):
         if m.startswith('Missing } in') or m.startswith('Missing " in'):
             return 'unbalanced'
+        if m.startswith('Empty namespace in component name'):
+            return 'empty_ns'
         if m.startswith('Unknown component'):
             return 'unknown_cpt'
         if m.startswith('Syntax error: Too many args'):
